@@ -345,6 +345,71 @@ Theorem c09_channels_independent :
 Proof. exact mrun_proj. Qed.
 Print Assumptions c09_channels_independent.
 
+(* An RpcServer with any number of clients, hang-ups included (srun: each step belongs to one client's
+   channel; SHangup i = the client disconnects and the server deletes its channel and descriptor).  For
+   every interleaving, every client whose channel exists at the start sees exactly [run] on its own
+   operations up to its hang-up: other clients' traffic and departures do not affect it, nothing that
+   happens after its hang-up (bytes, or the service completing one of its requests later: with fix 06 the
+   completion only frees the request) reaches the deleted channel or is attributed to it, and the channel
+   is gone (None) exactly if the client hung up.  Composes c09_channels_independent with teardown. *)
+Theorem c09_server_teardown :
+  forall (decode : list N -> option msg) (method_kind : list N -> N) (req_ok : list N -> bool)
+         (service : list N -> list N -> option sres)
+         (ops : list sop) (s s' : list (option (frame * rpc))) (tr : list (nat * event))
+         (i : nat) (f : frame) (r : rpc),
+  srun decode method_kind req_ok service s ops = (s', tr) -> nth_error s i = Some (Some (f, r)) ->
+  exists f' r' tri,
+    run decode method_kind req_ok service f r (own_ops i ops) = (f', r', tri) /\ proj i tr = tri /\
+    nth_error s' i = Some (if hangs_up i ops then None else Some (f', r')).
+Proof. exact srun_proj. Qed.
+Print Assumptions c09_server_teardown.
+
+(* a deleted channel stays deleted and silent, whatever is addressed to it afterwards *)
+Theorem c09_deleted_channel_untouched :
+  forall (decode : list N -> option msg) (method_kind : list N -> N) (req_ok : list N -> bool)
+         (service : list N -> list N -> option sres)
+         (ops : list sop) (s s' : list (option (frame * rpc))) (tr : list (nat * event)) (i : nat),
+  srun decode method_kind req_ok service s ops = (s', tr) -> nth_error s i = Some None ->
+  nth_error s' i = Some None /\ proj i tr = [].
+Proof. exact srun_gone. Qed.
+Print Assumptions c09_deleted_channel_untouched.
+
+(* Message types without a handler (DISCONNECT, DESCRIPTOR_REQUEST, DESCRIPTOR_RESPONSE, REQUEST_CANCEL,
+   and any other value) are counted as received and otherwise ignored: no state change, nothing sent,
+   nobody called. *)
+Theorem c09_other_types :
+  forall (method_kind : list N -> N) (req_ok : list N -> bool) (service : list N -> list N -> option sres)
+         (cl ok : bool) (r : rpc) (m : msg),
+  m_type m <> REQUEST -> m_type m <> RESPONSE -> m_type m <> RESPONSE_CANCEL ->
+  m_type m <> RESPONSE_FAILED -> m_type m <> RESPONSE_NOT_IMPLEMENTED -> m_type m <> STREAM_REQUEST ->
+  dispatch method_kind req_ok service cl ok r m = (r, []).
+Proof. exact other_types. Qed.
+Print Assumptions c09_other_types.
+
+(* A STREAM_REQUEST naming a method that exists but is not a streaming method (or arriving at a channel
+   without a service) is refused: nothing is called, sent or changed. *)
+Theorem c09_stream_request_refused :
+  forall (method_kind : list N -> N) (req_ok : list N -> bool) (service : list N -> list N -> option sres)
+         (cl ok : bool) (r : rpc) (m : msg),
+  m_type m = STREAM_REQUEST -> method_kind (m_name m) <> 0 -> method_kind (m_name m) <> 2 ->
+  dispatch method_kind req_ok service cl ok r m = (r, []).
+Proof. exact stream_request_refused. Qed.
+Print Assumptions c09_stream_request_refused.
+
+(* Whenever the service is called, it is with the message's own name and a request buffer that parsed,
+   and either for a REQUEST to a method it has (the path with a response object and a completion
+   callback) or for a STREAM_REQUEST to a streaming method (the only path with NULL response / done):
+   no other message type or method kind ever reaches the service. *)
+Theorem c09_service_called_only_if :
+  forall (method_kind : list N -> N) (req_ok : list N -> bool) (service : list N -> list N -> option sres)
+         (cl ok : bool) (r : rpc) (m : msg) (r' : rpc) (evs : list event) (nm rq : list N),
+  dispatch method_kind req_ok service cl ok r m = (r', evs) -> In (EvService nm rq) evs ->
+  nm = m_name m /\ rq = m_buf m /\ req_ok (m_buf m) = true /\
+  ((m_type m = REQUEST /\ method_kind (m_name m) <> 0 /\ method_kind (m_name m) <> 3) \/
+   (m_type m = STREAM_REQUEST /\ method_kind (m_name m) = 2)).
+Proof. exact (service_called_only_if (fun _ => None)). Qed.
+Print Assumptions c09_service_called_only_if.
+
 (* The hypotheses are satisfiable and the statements are not vacuous: a concrete history.
    decode: a body is a message of type RESPONSE whose id is its first byte.  Two calls (ids 0, 1), then
    the reply to id 1 and the reply to id 0 arrive split over four reads, then a duplicate of reply 1. *)
@@ -431,3 +496,14 @@ Example c09_example_multi :
                         (0%nat, OpChunk [7] true)] in
   dispatched (proj 0%nat tr) = [mkMsg 2 9 [] [9; 7]] /\ dispatched (proj 1%nat tr) = [mkMsg 2 5 [] [5; 6]].
 Proof. vm_compute. split; reflexivity. Qed.
+
+(* a server with two clients: client 0 sends a request and hangs up; the service answers it afterwards
+   (nothing happens), client 1 is served as if alone *)
+Example c09_example_server_teardown :
+  let '(s, tr) := srun ex_decode_req (fun _ => 1) (fun _ => true) (fun _ _ => None)
+                       [Some (init_frame, init_rpc); Some (init_frame, init_rpc)]
+                       [SOp 0 (OpChunk [1; 0; 0; 16; 5] true); SOp 1 (OpChunk [1; 0; 0; 16; 6] true);
+                        SHangup 0; SOp 0 (OpComplete 0 (SReply [7]) true); SOp 1 (OpComplete 0 (SReply [8]) true)] in
+  nth_error s 0 = Some None /\ sends (proj 0%nat tr) = [] /\
+  sends (proj 1%nat tr) = [mkMsg RESPONSE 6 [] [8]].
+Proof. vm_compute. repeat split; reflexivity. Qed.
